@@ -16,3 +16,7 @@ pub use crate::util::metadata::side_metadata::helpers::verif_hooks as side_helpe
 
 /// `util::heap::space_descriptor` (crate-visible module, public type).
 pub use crate::util::heap::space_descriptor::SpaceDescriptor;
+
+/// `policy::marksweepspace::native_ms::block_list` (size classes).
+pub use crate::policy::marksweepspace::native_ms::mi_bin;
+pub use crate::policy::marksweepspace::native_ms::verif_hooks_block_list as ms_block_list;
